@@ -52,3 +52,19 @@ type_suppression* w_ts_with_ranges(unsigned n, const int* begins, const int* end
 }
 bool w_ts_suppresses_diff(const type_suppression* s, const abigail::comparison::diff* d) { return s->suppresses_diff(d); }
 }
+extern "C" {
+// a real fn_call_expr_boundary wrapping a harness-owned function_call_expr (its name and arguments are what the
+// harness's function_call_expr::get_name / get_arguments stubs say), and eval_boundary on it
+type_suppression::insertion_range::boundary_sptr* w_fn_boundary(void* fake_expr)
+{
+  static type_suppression::insertion_range::boundary_sptr b;
+  b = type_suppression::insertion_range::create_fn_call_expr_boundary
+    (abigail::ini::function_call_expr_sptr(static_cast<abigail::ini::function_call_expr*>(fake_expr), abigail::sptr_utils::noop_deleter()));
+  return &b;
+}
+bool w_eval_boundary(type_suppression::insertion_range::boundary_sptr* b, void* fake_class, uint64_t* v)
+{
+  return type_suppression::insertion_range::eval_boundary
+    (*b, abigail::ir::class_decl_sptr(static_cast<abigail::ir::class_decl*>(fake_class), abigail::sptr_utils::noop_deleter()), *v);
+}
+}
